@@ -45,7 +45,7 @@ def run(ctx):
                       "r2.Rect": "3x3 grid: all 45 valid rectangles (9 empty representations), all pairs, 25 probes"}
     # ---- 2. lat-lng rectangles: seeded first operands x all second operands
     n_rc = 15 * 65 + 1
-    na = 24 if q else 160
+    na = 20 if q else 100
     consts = {"M": 4, "NL": 3, "ML": 2, "NR": 1, "Fams": '{"rc"}',
               "AIdxS1": set(), "AIdxRc": set(rnd.sample(range(1, n_rc + 1), na)) | {1, n_rc}, "BIdxRc": set(),
               "RcMlK": _k([-2, -1, 0, 1, 2]), "RcMgK": _k([-4, -2, -1, 0, 1, 2, 4])}
@@ -60,15 +60,17 @@ def run(ctx):
     r = ctx.tlc("Gen_Caps", vlib.cfg(constants=consts, invariants=CAP_INV), workers=12, timeout=1500, heap="8g")
     ctx.replay(_cases(r), timeout=1800)
     if not q:
-        # M = 8 circle: all 258 intervals, all pairs
-        consts = {"M": 8, "NL": 4, "ML": 4, "NR": 2, "Fams": '{"s1", "pp", "r1", "r2"}',
-                  "AIdxS1": set(), "AIdxRc": {1}, "BIdxRc": set(), "RcMlK": _k([0]), "RcMgK": _k([0])}
+        # M = 8 circle (258 intervals): seeded first operands x all second operands; finer line
+        consts = {"M": 8, "NL": 4, "ML": 4, "NR": 1, "Fams": '{"s1", "pp", "r1"}',
+                  "AIdxS1": set(rnd.sample(range(1, 259), 100)), "AIdxRc": {1}, "BIdxRc": set(),
+                  "RcMlK": _k([0]), "RcMgK": _k([0])}
         r = ctx.tlc("Gen_Intervals", vlib.cfg(constants=consts, invariants=IV_INV), workers=14, timeout=2400, heap="8g")
         ctx.replay(_cases(r), timeout=1800)
         # finer lat-lng grid, sampled on both sides
         n_rc = 45 * 257 + 1
         consts = {"M": 8, "NL": 3, "ML": 4, "NR": 1, "Fams": '{"rc"}', "AIdxS1": set(),
-                  "AIdxRc": set(rnd.sample(range(1, n_rc + 1), 60)), "BIdxRc": set(rnd.sample(range(1, n_rc + 1), 500)),
+                  "AIdxRc": set(rnd.sample(range(1, n_rc + 1), 30)) | {1, n_rc},
+                  "BIdxRc": set(rnd.sample(range(1, n_rc + 1), 400)) | {1, n_rc},
                   "RcMlK": _k([-3, -1, 0, 1, 4]), "RcMgK": _k([-8, -3, -1, 0, 1, 3, 8])}
         r = ctx.tlc("Gen_Intervals", vlib.cfg(constants=consts, invariants=IV_INV), workers=14, timeout=2400, heap="8g")
         ctx.replay(_cases(r), timeout=1800)
